@@ -20,13 +20,13 @@ type c17Case struct {
 	Slot  string   `json:"slot"`  // missing | equal | different
 }
 
-var c17Atoms = []string{"ok-any", "ok-type", "ok-custom", "miss-any", "miss-type", "miss-custom", "bad-type", "bad-custom", "bad-type2", "bad-syntax", "bad-type-null", "bad-custom-chan", "bad-any-child-after-parent", "bad-type-tagged", "bad-type-anchored", "bad-custom-alias", "miss-type-between", "miss-any-extends", "bad-type-malformed-among"}
+var c17Atoms = []string{"ok-any", "ok-type", "ok-custom", "miss-any", "miss-type", "miss-custom", "bad-type", "bad-custom", "bad-type2", "bad-syntax", "bad-type-null", "bad-custom-chan", "bad-any-child-after-parent", "bad-type-tagged", "bad-type-anchored", "bad-custom-alias", "miss-type-between", "miss-any-extends", "bad-type-malformed-among", "bad-type-kind", "miss-custom-wild"}
 
 const (
-	c17JSONDoc  = `{"a":1,"b":"x","c":{"d":true},"e":2,"n":null,"f":2.5,"g":7}`
-	c17JSONDoc2 = `{"a":5,"b":"y","c":{"d":false},"e":3,"n":null,"f":9.5,"g":8}`
-	c17YAMLDoc  = "a: 1\nb: x\nc:\n  d: true\ne: 2\nn: null\nt: !!str 10\nan: &an 4\nal: *an\n"
-	c17YAMLDoc2 = "a: 5\nb: y\nc:\n  d: false\ne: 3\nn: null\nt: !!str 10\nan: &an 4\nal: *an\n"
+	c17JSONDoc  = `{"a":1,"b":"x","c":{"d":true},"e":2,"n":null,"f":2.5,"g":7,"arr":[{"id":1},{"k":0},{"id":3}]}`
+	c17JSONDoc2 = `{"a":5,"b":"y","c":{"d":false},"e":3,"n":null,"f":9.5,"g":8,"arr":[{"id":1},{"k":0},{"id":3}]}`
+	c17YAMLDoc  = "a: 1\nb: x\nc:\n  d: true\ne: 2\nn: null\nt: !!str 10\nan: &an 4\nal: *an\narr:\n  - id: 1\n  - k: 0\n"
+	c17YAMLDoc2 = "a: 5\nb: y\nc:\n  d: false\ne: 3\nn: null\nt: !!str 10\nan: &an 4\nal: *an\narr:\n  - id: 1\n  - k: 0\n"
 )
 
 type c17Built struct {
@@ -197,6 +197,26 @@ func c17Build(api string, atoms []string, eomp bool, dropMissing bool) c17Built 
 					return nil, errors.New("alias value is not a string")
 				})) // `*an` is the number 4
 				b.fails = append(b.fails, `Custom("$.al")`)
+			}
+		case "bad-type-kind":
+			// the two composite kinds are different types: a list expected where a mapping is, a mapping expected where a list is
+			m1, m2 := match.Type[[]any](p("c")).ErrOnMissingPath(eomp), match.Type[map[string]any](p("arr")).ErrOnMissingPath(eomp)
+			b.jm, b.ym = append(b.jm, m1, m2), append(b.ym, m1, m2)
+			b.fails = append(b.fails, `Type("`+p("c")+`")`, `Type("`+p("arr")+`")`)
+		case "miss-custom-wild":
+			// a path through every element of a list that is not there (gjson `#`): a missing path like any other
+			if yaml {
+				b.skip = true
+				continue
+			}
+			if dropMissing {
+				continue
+			}
+			m := match.Custom(p("nolist.#.id"), func(v any) (any, error) { return "never", nil }).ErrOnMissingPath(eomp)
+			m2 := match.Any(p("b.#.id")).ErrOnMissingPath(eomp) // b is a string, not a list
+			b.jm = append(b.jm, m, m2)
+			if eomp {
+				b.fails = append(b.fails, `Custom("`+p("nolist.#.id")+`")`, `Any("`+p("b.#.id")+`")`)
 			}
 		case "bad-syntax":
 			if !yaml {
